@@ -151,6 +151,27 @@ def gen_doc(index):
     meta.append(comp("nosel0", ABSENT, "no-selection"))
     meta.append(comp("nosel1", r.choice([None, None, ""]), "no-selection", r.choice([None, "bash", "javascript"])))
     meta.append(comp("defenv", spell(r, "environment"), "explicit-default", r.choice([None, None, "bash"])))
+    # spelling-invariance siblings: the same component with the environment name spelled lower / UPPER /
+    # Capitalised / aLTERNATING.  Derived deterministically (no random draws): every other case stays as it was.
+    for cm, c in zip(list(meta), list(components)):
+        sel = cm["selection"]
+        if not isinstance(sel, str) or not sel:
+            continue
+        spellings = []
+        for sp in (sel.lower(), sel.upper(), sel.capitalize(),
+                   "".join(ch.upper() if i % 2 else ch.lower() for i, ch in enumerate(sel))):
+            if sp not in spellings:
+                spellings.append(sp)
+        cm["variants"] = []
+        for i, sp in enumerate(spellings):
+            v = copy.deepcopy(c)
+            v["name"] = "%s-v%d" % (c["name"], i)
+            if "envsel" in (v.get("variables") or {}):
+                v["variables"]["envsel"] = sp
+            else:
+                v["command"]["environment"] = sp
+            components.append(v)
+            cm["variants"].append({"name": v["name"], "spelling": sp})
     doc = {"platforms": platforms, "environments": environments, "components": components}
     return {"doc": doc, "launch": launch, "components": meta, "index": index}
 
@@ -331,6 +352,52 @@ def judge(case, platform, cm, wg, w):
                   "environments": doc["environments"], "observed": got})
 
 
+def judge_spelling(case, platform, cm, wg, w):
+    """Metamorphic clause (no reference model, no reading of what a reserved name means): the environment
+    obtained with the environment name spelled in any case variant equals the one obtained with the
+    lower-case spelling - the same dictionary, or the same exception class."""
+    variants = cm.get("variants") or []
+    if len(variants) < 2:
+        return
+    doc, launch = case["doc"], case["launch"]
+    outcomes = []
+    with LaunchEnvironment(launch):
+        for v in variants:
+            try:
+                outcomes.append({"ok": wg.environmentForNode("stage0.%s" % v["name"])})
+            except Exception as e:
+                outcomes.append({"raised": type(e).__name__, "message": str(e)[:200]})
+    base_name = variants[0]["spelling"]
+    if base_name in ("environment", "none"):
+        kind = "reserved_" + base_name
+        if base_name == "environment":
+            try:
+                ref.named(doc["environments"], platform, "environment")
+                kind += "_default_environment_defined"
+            except ref.UnknownEnvironment:
+                kind += "_no_default_environment"
+    else:
+        kind = "named"
+    ref_out = outcomes[0]
+    for v, out in zip(variants[1:], outcomes[1:]):
+        w.evaluated()
+        w.count("spelling_variants_compared")
+        w.count("spelling_" + kind)
+        same = (out["ok"] == ref_out["ok"]) if ("ok" in out and "ok" in ref_out) else (
+            out.get("raised") is not None and out.get("raised") == ref_out.get("raised"))
+        if same:
+            w.count("spelling_variant_same_dictionary" if "ok" in out else "spelling_variant_same_exception")
+            continue
+        def show(o):
+            return ("raises %s" % o["raised"]) if "raised" in o else ("gives %d variables" % len(o["ok"]))
+        w.violation("environment name spelled %r %s on platform %r, spelled %r (lower case) it %s: environment names "
+                    "are not case-insensitive for %s" % (v["spelling"], show(out), platform, base_name, show(ref_out),
+                                                         "stage0." + cm["name"]),
+                    {"doc": doc, "launch": launch, "platform": platform, "component": cm, "metamorphic": True,
+                     "spelling": v["spelling"], "observed": out, "observed_lower_case": ref_out})
+        return
+
+
 def run_case(case, w, only=None):
     for platform in ("default", "p1"):
         if only and only["platform"] != platform:
@@ -344,7 +411,9 @@ def run_case(case, w, only=None):
         for cm in case["components"]:
             if only and only["component"]["name"] != cm["name"]:
                 continue
-            judge(case, platform, cm, wg, w)
+            if not (only and only.get("metamorphic")):
+                judge(case, platform, cm, wg, w)
+            judge_spelling(case, platform, cm, wg, w)
     w.count("documents")
 
 
@@ -353,7 +422,8 @@ def run_job(job, w):
         wit = job["witness"]
         comps = [wit["component"]]
         case = {"doc": wit["doc"], "launch": wit["launch"], "components": comps, "index": "replay"}
-        run_case(case, w, only={"platform": wit["platform"], "component": wit["component"]})
+        run_case(case, w, only={"platform": wit["platform"], "component": wit["component"],
+                                "metamorphic": bool(wit.get("metamorphic"))})
         return
     for index in range(job["start"], job["start"] + job["count"]):
         run_case(gen_doc(index), w)
@@ -377,7 +447,10 @@ def main():
             "environment has it",
             "a variable whose declared value is empty may be absent or empty in the result; whether the DEFAULTS key "
             "itself is kept is not judged",
-            "a component that explicitly names the environment 'environment' while nobody defines it is not judged",
+            "a component that explicitly names the environment 'environment' while nobody defines it is not judged "
+            "against the reference model; it IS covered by the spelling-invariance clause (every case variant of a "
+            "selection, reserved names 'environment' and 'none' included, must give the same dictionary or the same "
+            "exception class as the lower-case spelling)",
             "no two environments of one platform differ only by case; none is called 'none'; environment values "
             "contain no %(var)s references; system variable names are disjoint from environment and launch names",
             "expected error for an undefined named environment is any exception (FlowIREnvironmentUnknown is counted)",
@@ -405,6 +478,11 @@ def main():
     c.floor("defined_on_default", 80 if quick else 2000)
     c.floor("reference_to_own-and-launch", 60 if quick else 1500)
     c.floor("interpreter_components", 200 if quick else 5000)
+    c.floor("spelling_variants_compared", 3000 if quick else 80000)
+    c.floor("spelling_named", 2000 if quick else 50000)
+    c.floor("spelling_reserved_none", 200 if quick else 5000)
+    c.floor("spelling_reserved_environment_default_environment_defined", 150 if quick else 4000)
+    c.floor("spelling_reserved_environment_no_default_environment", 150 if quick else 4000)
     if c.counters.get("harness_launch_environment_not_controlled"):
         c.note_inconclusive("the launch environment was not fully controlled")
     sys.exit(c.finish())
